@@ -226,6 +226,50 @@ STDOUT_DISPATCHER = FileThreadDispatcher(default=sys.stdout)
 STDERR_DISPATCHER = FileThreadDispatcher(default=sys.stderr)
 
 
+class _DispatcherRedirect:
+    """Installs a ``FileThreadDispatcher`` as ``sys.stdout``/``sys.stderr``
+    for as long as at least one alias thread needs it.
+
+    Several callable-alias threads of one pipeline are inside their redirect
+    at the same time and leave it in any order.  Saving and restoring "the
+    previous value" per thread (``xt.redirect_stdout``) is only correct for
+    LIFO exits: the stage that finished first put the real stream back while
+    another stage was still printing (its ``print()`` went to the terminal),
+    and the last one to leave could restore the dispatcher for good.  This
+    context manager is reference counted instead: the first thread in saves
+    the current stream, the last thread out restores it.
+    """
+
+    def __init__(self, stream, dispatcher):
+        self._stream = stream
+        self._dispatcher = dispatcher
+        self._lock = threading.Lock()
+        self._count = 0
+        self._saved = None
+
+    def __enter__(self):
+        with self._lock:
+            if self._count == 0:
+                current = getattr(sys, self._stream)
+                if current is not self._dispatcher:
+                    self._saved = current
+                    setattr(sys, self._stream, self._dispatcher)
+            self._count += 1
+        return self._dispatcher
+
+    def __exit__(self, exctype, excinst, exctb):
+        with self._lock:
+            self._count -= 1
+            if self._count == 0 and self._saved is not None:
+                if getattr(sys, self._stream) is self._dispatcher:
+                    setattr(sys, self._stream, self._saved)
+                self._saved = None
+
+
+_STDOUT_REDIRECT = _DispatcherRedirect("stdout", STDOUT_DISPATCHER)
+_STDERR_REDIRECT = _DispatcherRedirect("stderr", STDERR_DISPATCHER)
+
+
 def parse_proxy_return(r, stdout, stderr):
     """Proxies may return a variety of outputs. This handles them generally.
 
@@ -462,8 +506,8 @@ class ProcProxyThread(threading.Thread):
             with (
                 STDOUT_DISPATCHER.register(sp_stdout),
                 STDERR_DISPATCHER.register(sp_stderr),
-                xt.redirect_stdout(STDOUT_DISPATCHER),
-                xt.redirect_stderr(STDERR_DISPATCHER),
+                _STDOUT_REDIRECT,
+                _STDERR_REDIRECT,
                 XSH.env.swap(self.env, overlay=alias_env, __ALIAS_STACK=alias_stack),
             ):
                 r = run_with_partial_args(
